@@ -80,6 +80,8 @@ DiskRead(s, n) == Assembled(s.sz, s.disk.tree[n], Source(s.disk.tree[n], s.disk.
 Res(s, r) == [s |-> s, res |-> r]
 
 (* ---- placement: how many bytes of a content go into the directory entry --------- *)
+\* (WriteEntry below is ONE placement in which the property holds - append, never move - used by the
+\* model; the real code is not held to its offsets or layout: VpkTrace judges what a reader recovers)
 Cut(s, c) == LET want == IF s.single \/ s.limit = None THEN Size(s.sz, c)
                          ELSE VMin(s.limit, Size(s.sz, c))
              IN VMin(want, PreMax)
